@@ -290,6 +290,8 @@ func runC20(c *Ctx) {
 		"data":     pkt(fxpData, 0).str("ABCDEFGH").b,
 		"data3":    pkt(fxpData, 0).str("xyz").b,
 		"data0":    pkt(fxpData, 0).str("").b,
+		"data9":    pkt(fxpData, 0).str("ABCDEFGHI").b,
+		"data40":   pkt(fxpData, 0).str("0123456789012345678901234567890123456789").b,
 		"statvfs": func() []byte {
 			r := pkt(fxpExtendedReply, 0)
 			for i := 0; i < 11; i++ {
